@@ -92,10 +92,28 @@ def std_externals(it_holder: List[Interp]) -> Dict[str, object]:
     def ev(*e):
         it_holder[0].event(*e)
 
-    logger = Obj(None, debug=_noop, info=_noop, warning=lambda *a, **k: ev("log-warning"), error=_noop,
-                 critical=_noop, exception=_noop)
+    # logging: messages are events; `debug_logging` (set by a check through it.ext) switches the DEBUG level on, which makes
+    # isEnabledFor(...) true and formats `msg % args` like a handler would (lazy arguments are rendered)
+    def enabled(level=10):
+        return bool(it_holder[0].ext.get("debug_logging")) or (isinstance(level, int) and level >= 30)
+
+    def lazy(name):
+        def log(msg="", *a, **k):
+            if it_holder[0].ext.get("debug_logging") and a and isinstance(msg, str):
+                try:
+                    msg % a
+                except (TypeError, ValueError) as e:
+                    ev("log-format-error", name, str(e))
+            return None
+        return log
+
+    logger = Obj(None, debug=lazy("debug"), info=lazy("info"), warning=lambda *a, **k: ev("log-warning"), error=_noop,
+                 critical=_noop, exception=_noop, isEnabledFor=enabled,
+                 getEffectiveLevel=lambda: 10 if it_holder[0].ext.get("debug_logging") else 30, level=0)
     ext: Dict[str, object] = {
         "logger": logger,
+        "logging.DEBUG": 10, "logging.INFO": 20, "logging.WARNING": 30, "logging.ERROR": 40, "logging.CRITICAL": 50,
+        "logging.getLogger": lambda *a, **k: logger,
         "warnings.warn": lambda *a, **k: ev("warn", a[0] if a else None),
         "new:RawPacketData": new_raw,
         "new:CCSDSPacket": lambda *a, **k: construct_packet(it_holder[0], *a, **k),
